@@ -143,6 +143,13 @@ def run(tier="quick", seed=0):
     for sd in seeds:
         for sch in SCHEDS:
             jobs.append({"spec": heavy, "seed": sd, "sched": sch, "base": ("Diffuse", "mono9", "none", "heavy-optical")})
+    # the same at a balloon altitude with a uniform cloud (non-default detector altitude and cloud top: per-event state that only matters
+    # away from the defaults)
+    heavy33 = {"mode": "Diffuse", "spectrum": "mono", "log_e": 9.5, "cloud": "uniform", "cloud_alt": 2.0, "altitude": 33.0, "limb": 0.05,
+               "optical": True, "radio": False, "thrown": 450}
+    for sd in seeds[:1]:
+        for sch in (SCHEDS if thorough else ["sync", "threads-4"]):
+            jobs.append({"spec": heavy33, "seed": sd, "sched": sch, "base": ("Diffuse", "mono9.5", "uniform2", "heavy-optical-33km")})
     # no surviving trajectory: empty but valid table (both modes of reaching it)
     empty = {"mode": "Target", "thrown": 20, "obst": 600.0, "ra": 0.0, "dec": 1.5}
     for o, rd in ((True, True), (True, False), (False, True)):
